@@ -443,6 +443,22 @@ theorem ms33_get (a b : A) (s n m p t i j : Nat) (ht : t < s) (hi : i < n) (hj :
   rw [getD_piece _ _ _ _ (idx2_lt hi hk'), getD_piece _ _ _ _ (idx2_lt hk' hj), ent_eq_getD, ent_eq_getD, hsa, hsb]
   simp [ravel]
 
+/-- the `t`-th matrix of the stack product is the product of the `t`-th matrices -/
+theorem slab_ms33 (a b : A) (s n m p t : Nat) (ht : t < s) :
+    slab (ms33 a b s n m p) (n * p) t
+      = (mm22 ⟨slab a (n * m) t, [n, m]⟩ ⟨slab b (m * p) t, [m, p]⟩ n m p).elems := by
+  have hlen : ∀ t, (mm22 ⟨slab a (n * m) t, [n, m]⟩ ⟨slab b (m * p) t, [m, p]⟩ n m p).elems.length = n * p := by
+    intro t; simp [mm22, length_flatMap_range]
+  apply List.ext_getElem?
+  intro q
+  show (((ms33 a b s n m p).elems.drop (t * (n * p))).take (n * p))[q]? = _
+  by_cases hq : q < n * p
+  · rw [List.getElem?_take_of_lt hq, List.getElem?_drop]
+    show ((List.range s).flatMap _)[t * (n * p) + q]? = _
+    rw [getElem?_flatMap_uniform (List.range s) _ (n * p) (by intro t _; exact hlen t) t (by simpa using ht) q hq]
+    simp
+  · rw [List.getElem?_eq_none (by rw [List.length_take]; omega), List.getElem?_eq_none (by rw [hlen]; omega)]
+
 /-! ### inner -/
 
 theorem eraseIdx_concat_length (s : List Nat) (k : Nat) : (s ++ [k]).eraseIdx s.length = s := by
@@ -663,6 +679,94 @@ theorem dot1d_vecmat (a b : A) (k p : Nat) (ha : a.WF) (hsa : a.shape = [k]) (hs
 
 theorem getD_col (b : A) (k p j i : Nat) (hi : i < k) : (col b k p j).getD i 0 = b.elems.getD (i * p + j) 0 := by
   simp [col, List.getD_eq_getElem?_getD, hi]
+
+/-! ### every `ok` exit builds a well-formed array -/
+
+theorem reshape_wf {e : List Int} {s : List Nat} {r : A} (h : reshape e s = .ok r) : r.WF := by
+  unfold reshape at h
+  split at h
+  · cases h; simpa [Arr.WF] using (by assumption : s.prod = e.length).symm
+  · cases h
+
+theorem flat_wf (c : List Int) : (Arr.flat c).WF := by simp [Arr.flat, Arr.WF]
+
+theorem vdot_wf {a b r : A} (h : vdot a b = .ok r) : r.WF := by
+  unfold vdot at h
+  split at h
+  · cases h; simp [Arr.WF]
+  · cases h
+
+theorem matmul1dNd_wf (fuel : Nat) (a b r : A) (h : matmul1dNd fuel a b = .ok r) : r.WF := by
+  cases fuel with
+  | zero => simp [matmul1dNd] at h
+  | succ fuel =>
+    unfold matmul1dNd at h
+    split at h
+    · split at h
+      · simp only [bind_eq_ok_iff] at h
+        obtain ⟨_, _, _, _, _, _, h⟩ := h
+        exact reshape_wf h
+      · simp only [bind_eq_ok_iff] at h
+        obtain ⟨_, _, _, _, _, _, h⟩ := h
+        cases h; exact flat_wf _
+    · split at h
+      · simp only [bind_eq_ok_iff] at h
+        obtain ⟨_, _, _, _, _, _, h⟩ := h
+        exact reshape_wf h
+      · simp only [bind_eq_ok_iff] at h
+        obtain ⟨_, _, _, _, _, _, h⟩ := h
+        cases h; exact flat_wf _
+
+theorem matmul22_wf {a b r : A} (h : matmul22 a b = .ok r) : r.WF := by
+  unfold matmul22 matmulIterate at h
+  simp only [bind_eq_ok_iff] at h
+  obtain ⟨_, _, _, _, _, _, _, _, _, _, h⟩ := h
+  exact reshape_wf h
+
+theorem matmulNd_wf {a b r : A} (h : matmulNd a b = .ok r) : r.WF := by
+  unfold matmulNd at h
+  simp only [bind_eq_ok_iff] at h
+  obtain ⟨d1, _, d2, _, h⟩ := h
+  by_cases h2 : (if a.ndim ≥ b.ndim then a.shape else b.shape).length < 2
+  · rw [if_pos h2] at h; cases h
+  · rw [if_neg h2] at h
+    split at h
+    · cases h
+    · simp only [bind_eq_ok_iff] at h
+      obtain ⟨_, _, _, _, _, _, h⟩ := h
+      exact reshape_wf h
+
+theorem prod_replicate_one (n : Nat) : (List.replicate n 1).prod = 1 := by
+  induction n with
+  | zero => rfl
+  | succ n ih => simp [List.replicate_succ, ih]
+
+theorem multiplyScalar_wf (a b r : A) (ha : a.WF) (hb : b.WF) (h : multiplyScalar a b = .ok r) : r.WF := by
+  unfold multiplyScalar at h
+  split at h
+  · rename_i x hx
+    cases h
+    have hs : a.shape = List.replicate a.ndim 1 := ones_of_prod_eq_one a.shape (by rw [← ha, hx]; rfl)
+    simp only [Arr.WF, List.length_map]
+    rw [hs, bshape_ones_left', List.prod_append, prod_replicate_one, Nat.one_mul, ← hb]
+  · rename_i y hy _
+    cases h
+    have hs : b.shape = List.replicate b.ndim 1 := ones_of_prod_eq_one b.shape (by rw [← hb, hy]; rfl)
+    simp only [Arr.WF, List.length_map]
+    rw [hs, bshape_ones_right', List.prod_append, prod_replicate_one, Nat.one_mul, ← ha]
+  · cases h
+
+theorem dotIterate_wf {v1 v2 : List A} {r : A} (h : dotIterate v1 v2 = .ok r) : r.WF := by
+  unfold dotIterate at h
+  simp only [bind_eq_ok_iff] at h
+  obtain ⟨_, _, h⟩ := h
+  cases h; exact flat_wf _
+
+theorem dot1d_wf {a b r : A} (h : dot1d a b = .ok r) : r.WF := by
+  unfold dot1d at h
+  by_cases h1 : a.ndim > 1 <;> by_cases h2 : b.ndim > 1 <;>
+    simp only [h1, h2, if_true, if_false, bind_eq_ok_iff] at h <;>
+    obtain ⟨_, _, _, _, h⟩ := h <;> exact dotIterate_wf h
 
 end C14
 end ArrModel
